@@ -70,6 +70,18 @@ def _worker(check, tier, w, nw, deadline, q):
             if not pending:
                 return
             results = rn.run_batch(cases)
+            # a watchdog kill can be the load of the machine, not the case: such a case is run again, alone, in a fresh
+            # process with a long horizon, and that observation is the one that is judged (bounded number of retries per worker)
+            for k, r in enumerate(results):
+                if r.get("class") == "timeout" and st["extra"].get("timeout_retries", 0) < 60:
+                    st["extra"]["timeout_retries"] = st["extra"].get("timeout_retries", 0) + 1
+                    try:
+                        c2 = {kk: vv for kk, vv in cases[k].items()}
+                        r2 = R.fresh_replay(c2, build=check.build_kind, horizon_ms=max(20000, 4 * check.horizon_ms), times=1)[0]
+                        r2["id"] = r.get("id")
+                        results[k] = r2
+                    except Exception:
+                        pass
             pos = 0
             for (idx, spec, ctx, n) in pending:
                 rs = results[pos:pos + n]
@@ -248,6 +260,12 @@ def _map_worker(cases, w, nw, build, horizon_ms, q):
                 c["id"] = i
                 cs.append(c)
             rs = rn.run_batch(cs)
+            for k, r in enumerate(rs):
+                if r.get("class") == "timeout":  # see _worker: load of the machine or the case? run it again alone with a long horizon
+                    try:
+                        rs[k] = R.fresh_replay(dict(cs[k]), build=build, horizon_ms=max(20000, 4 * horizon_ms), times=1)[0]
+                    except Exception:
+                        pass
             for (i, _), r in zip(chunk, rs):
                 out.append((i, r))
         rn.close()
